@@ -46,11 +46,19 @@ type CaptureContext struct {
 	Ssrc   uint32
 	Codecs []webrtc.RTPCodecParameters
 	Sink   func(h *rtp.Header, payload []byte)
+	// YieldOnWrite makes every write a scheduling point (see WriteRTP)
+	YieldOnWrite bool
 }
 
 type captureWriter struct{ c *CaptureContext }
 
 func (w captureWriter) WriteRTP(h *rtp.Header, payload []byte) (int, error) {
+	// the real write (SRTP, socket) takes time and can block: a scheduling
+	// point between the caller handing over its buffer and the bytes
+	// leaving.  payload still aliases the caller's buffer here.
+	if w.c.YieldOnWrite {
+		Yield("track.write")
+	}
 	if w.c.Sink != nil {
 		w.c.Sink(h, payload)
 	}
